@@ -43,6 +43,35 @@ Subset (everything else raises ValueError / KeyError -- nothing is silently drop
                 branch is `ValueError` (Python: "not enough / too many values to unpack").
       for x in e: body     body = assignments to names defined before the loop (accumulators)
                 -> `List.foldlM`; names first assigned in the body are local to an iteration.
+      for i in range(n): body    -> `List.foldlM` over `List.range n.toNat` (a negative n is an empty range,
+                as in Python); the body may also contain tuple-unpacking assignments and `lst.append(e)`.
+      lst = [] (element type declared by the caller) ; lst.append(e)  -> `lst ++ [e]`
+      for k, v in d.items(): / for k in d: / d.values() / len(d)   for a dict d (an association list in
+                insertion order); loops may be nested.
+      if c: x = a  else: x = b     (one assignment to the same name on both sides, no fallible call)
+                -> `let x := if c then a else b`
+      assert x is not None  -> as `if x is None: raise AssertionError`; `assert c` for an int comparison c
+                likewise; `assert isinstance(<int name>, int)` is a SKIPPED guard (listed).
+      p = [] if p is None else p   for a parameter p whose declared type is a (never-None) list: SKIPPED
+                (listed): the declared type is the precondition `p is not None`.
+      sum(<int expr> for x in <list>)   -> `(List.map (fun x => ..) l).sum`
+      [e1, e2] / lst.append(e) / b"".join(lst)   for a list of bytes -> `List.flatten`
+      struct.pack(fmt, a, *xs)   (a starred list of ints as last argument) -> `pack fmt ([a] ++ xs)`
+      "<template>" % n   as a struct format (one `%d`/`%s` directive used as a repeat count, n an int)
+                -> hoisted `let tN ← expandFmtR <template> n` (GenPrims.lean: `n` copies of the following
+                format character; a negative count is a format `struct` rejects: struct.error)
+      d = {} (type declared by the caller) ; d[k] = v   -> `dictSet d k v`
+      nativeString(s)   (twisted.python.compat, for a `str` s) -> hoisted `let tN ← nativeStringR s`
+                (GenPrims.lean: returns s after checking that it is ASCII, else UnicodeEncodeError)
+  generators    a function declared a GENERATOR by the caller (item type given) is translated in the monad
+                `Y item` of GenPrims.lean (the items yielded so far, then a value or the exception that ended
+                the run): `yield e` -> `yieldY e`; every fallible call is lifted (`liftR`); a raise ends the
+                run with the items yielded before it; falling off the end is `pure ()`; `return` is rejected.
+                `tuple(l)` of a list of ints is the list.  A loop variable that is never READ anywhere in
+                the function (`_i`) may be re-used by a nested loop.
+  generic terms  a function may be declared generic in a payload type `α` of which it only reads declared
+                attributes: the term takes one accessor function per attribute (`acc_<attr>`); a generic
+                function may call another generic function (the accessors are passed on).
   expressions   int literals (also negative), None, names, `rec.field`, `Class.CONST` (int class
                 attribute, read from the AST), + - * on ints, + on bytes (`++`), len(bytes|list),
                 `data[a:b]` (-> `pySlice`), struct.pack(<literal fmt>, ints..), struct.unpack(fmt, e),
@@ -57,6 +86,7 @@ import ast
 from harness.lib.pure_translate import LEAN_RESERVED
 
 EXC = {
+    "AssertionError": "assertion",
     "TypeError": "typeError",
     "ValueError": "valueError",
     "BufferUnderflowError": "bufferUnderflow",
@@ -103,11 +133,19 @@ def lean_ty(t):
         return "List Int"
     if isinstance(t, tuple) and t[0] == "list":
         return "List (%s)" % lean_ty(t[1])
+    if isinstance(t, tuple) and t[0] == "abs":
+        return t[1]
+    if isinstance(t, tuple) and t[0] == "dict":
+        return "List (%s × %s)" % (_par(lean_ty(t[1])), _par(lean_ty(t[2])))
     if isinstance(t, tuple) and t[0] == "rec":
         return " × ".join("(%s)" % lean_ty(ft) if isinstance(ft, tuple) and ft[0] in ("rec", "tup") else lean_ty(ft) for _, ft in t[1])
     if isinstance(t, tuple) and t[0] == "tup":
         return " × ".join("(%s)" % lean_ty(ft) if isinstance(ft, tuple) and ft[0] in ("rec", "tup") else lean_ty(ft) for ft in t[1])
     raise ValueError("wire_translate: unknown type %r" % (t,))
+
+
+def _par(s):
+    return "(%s)" % s if " × " in s and not s.startswith("List ") and not s.startswith("Option ") else s
 
 
 def rec(*fields):
@@ -120,6 +158,21 @@ def tup(*types):
 
 def lst(t):
     return ("list", t)
+
+
+def absrec(var, *fields):
+    """a record of an ABSTRACT type `var` (a Lean type variable) of which only the listed attributes are
+    read; attribute `f` is the application of the accessor function `f` (a parameter of the term)"""
+    return ("abs", var, tuple(fields))
+
+
+def ddict2(k1, k2, v):
+    """`collections.defaultdict(dict)` used as out[k1][k2] = v: association lists in insertion order"""
+    return ("dict", k1, ("dict", k2, v))
+
+
+def dct(k, v):
+    return ("dict", k, v)
 
 
 def _proj(base, k, n):
@@ -152,12 +205,15 @@ def _balanced(s):
 class Spec:
     """What the caller declares about one translated function."""
 
-    def __init__(self, py, lean, params, ret, func=None):
+    def __init__(self, py, lean, params, ret, func=None, generic=None, local_types=None, generator=None):
         self.py = py  # python name (last component)
         self.lean = lean  # name of the generated definition
         self.params = list(params)  # [(name, type)]
         self.ret = ret
         self.func = func  # ast.FunctionDef
+        self.generic = generic  # None | ("α", [(accessor, result type)...]): the term is generic in α
+        self.local_types = dict(local_types or {})  # declared types of locals that cannot be inferred
+        self.generator = generator  # None | item type: the function is a generator yielding such items
 
 
 class WireTranslator:
@@ -182,8 +238,19 @@ class WireTranslator:
         self.ntmp += 1
         return n
 
+    def subst_abs(self, t):
+        """an abstract payload type is identified by its type variable: give it the current function's attributes"""
+        if isinstance(t, tuple) and t and t[0] == "abs":
+            cur = self.current.generic
+            if cur is not None and cur[0] == t[1]:
+                return ("abs", t[1], tuple(cur[1]))
+            return t
+        if isinstance(t, tuple):
+            return tuple(self.subst_abs(x) for x in t)
+        return t
+
     def coerce(self, s, frm, to, node):
-        if frm == to:
+        if self.subst_abs(frm) == self.subst_abs(to):
             return s
         if frm == "none" and to in ("optbytes", "opttext"):
             return "none"
@@ -232,6 +299,11 @@ class WireTranslator:
                     raise KeyError("wire_translate: line %s: record has no field %r" % (node.lineno, node.attr))
                 k = names.index(node.attr)
                 return _proj(_atom(base), k, len(names)), bt[1][k][1]
+            if isinstance(bt, tuple) and bt[0] == "abs":
+                fields = dict(bt[2])
+                if node.attr not in fields:
+                    raise KeyError("wire_translate: line %s: abstract record has no declared attribute %r" % (node.lineno, node.attr))
+                return "acc_%s %s" % (node.attr, _atom(base)), fields[node.attr]
             _bad(node, "attribute of a non-record")
         if isinstance(node, ast.BinOp):
             l, lt = self.expr(node.left, env, pre)
@@ -251,6 +323,15 @@ class WireTranslator:
                     _bad(node, "slice bounds must be ints")
                 return "pySlice %s %s %s" % (_atom(base), _atom(lo), _atom(hi)), "bytes"
             _bad(node, "only bytes[lo:hi] subscripts are supported")
+        if isinstance(node, ast.List) and not node.elts:
+            return "[]", "list?"
+        if isinstance(node, ast.Dict) and not node.keys:
+            return "[]", "dict?"
+        if isinstance(node, ast.List):
+            parts = [self.expr(e, env, pre) for e in node.elts]
+            if any(t != "bytes" for _, t in parts):
+                _bad(node, "only list literals of bytes values are supported")
+            return "[" + ", ".join(p for p, _ in parts) + "]", ("list", "bytes")
         if isinstance(node, ast.Tuple):
             parts = [self.expr(e, env, pre) for e in node.elts]
             return "(" + ", ".join(p for p, _ in parts) + ")", ("tup", tuple(t for _, t in parts))
@@ -261,6 +342,16 @@ class WireTranslator:
     def fmt_arg(self, node, env, pre):
         if isinstance(node, ast.Constant) and isinstance(node.value, str):
             return lean_chars(node.value)
+        if isinstance(node, ast.BinOp) and isinstance(node.op, ast.Mod) and isinstance(node.left, ast.Constant) and isinstance(node.left.value, str):
+            tmpl = node.left.value
+            if tmpl.count("%") != 1 or ("%d" not in tmpl and "%s" not in tmpl):
+                _bad(node, "format template must contain exactly one %d / %s directive")
+            n, nt = self.expr(node.right, env, pre)
+            if nt != "int":
+                _bad(node, "format template argument must be an int")
+            name = self.fresh()
+            pre.append("let %s ← expandFmtR %s %s" % (name, lean_chars(tmpl), _atom(n)))
+            return name
         s, t = self.expr(node, env, pre)
         if t != "fmt":
             _bad(node, "struct format must be a string literal or a format parameter")
@@ -271,23 +362,32 @@ class WireTranslator:
         # len(x)
         if isinstance(f, ast.Name) and f.id == "len" and len(node.args) == 1 and not node.keywords and "len" not in env:
             a, at = self.expr(node.args[0], env, pre)
-            if at in ("bytes",) or (isinstance(at, tuple) and at[0] == "list") or at == "ints":
+            if at in ("bytes",) or (isinstance(at, tuple) and at[0] in ("list", "dict")) or at == "ints":
                 return "(%s.length : Int)" % _atom(a), "int"
             _bad(node, "len() of %r (len of a str counts code points, of None raises: not supported)" % (at,))
         # struct.pack / unpack / calcsize
         if isinstance(f, ast.Attribute) and isinstance(f.value, ast.Name) and f.value.id == "struct" and "struct" not in env:
-            if node.keywords or any(isinstance(a, ast.Starred) for a in node.args):
+            if node.keywords or any(isinstance(a, ast.Starred) for a in node.args[:-1]) or (
+                    f.attr != "pack" and any(isinstance(a, ast.Starred) for a in node.args)):
                 _bad(node, "keywords / *args in a struct call")
             if f.attr == "pack" and node.args:
                 fmt = self.fmt_arg(node.args[0], env, pre)
                 vals = []
+                star = None
                 for a in node.args[1:]:
+                    if isinstance(a, ast.Starred):
+                        s, t = self.expr(a.value, env, pre)
+                        if t != "ints":
+                            _bad(a, "a starred struct.pack argument must be a list of ints")
+                        star = s
+                        continue
                     s, t = self.expr(a, env, pre)
                     if t != "int":
                         _bad(a, "struct.pack value must be an int")
                     vals.append(s)
                 n = self.fresh()
-                pre.append("let %s ← pack %s [%s]" % (n, fmt, ", ".join(vals)))
+                lst_ = "[%s]" % ", ".join(vals) if star is None else "([%s] ++ %s)" % (", ".join(vals), _atom(star))
+                pre.append("let %s ← pack %s %s" % (n, fmt, lst_))
                 return n, "bytes"
             if f.attr == "unpack" and len(node.args) == 2:
                 fmt = self.fmt_arg(node.args[0], env, pre)
@@ -303,6 +403,46 @@ class WireTranslator:
                 pre.append("let %s ← calcsizeR %s" % (n, fmt))
                 return n, "int"
             _bad(node, "struct.%s is not supported" % f.attr)
+        # d.items() / d.values()
+        if isinstance(f, ast.Attribute) and f.attr in ("items", "values") and not node.args and not node.keywords:
+            d, dt = self.expr(f.value, env, pre)
+            if isinstance(dt, tuple) and dt[0] == "dict":
+                if f.attr == "items":
+                    return d, ("list", ("tup", (dt[1], dt[2])))
+                return "List.map Prod.snd %s" % _atom(d), ("list", dt[2])
+            _bad(node, ".%s() of a non-dict" % f.attr)
+        # b"".join(list of bytes)
+        if isinstance(f, ast.Attribute) and f.attr == "join" and isinstance(f.value, ast.Constant) and f.value.value == b"" \
+                and len(node.args) == 1 and not node.keywords:
+            l, lt = self.expr(node.args[0], env, pre)
+            if lt != ("list", "bytes"):
+                _bad(node, "b\"\".join of something that is not a list of bytes")
+            return "List.flatten %s" % _atom(l), "bytes"
+        # sum(<int expr> for x in <list>)
+        if isinstance(f, ast.Name) and f.id == "sum" and "sum" not in env and len(node.args) == 1 and not node.keywords \
+                and isinstance(node.args[0], ast.GeneratorExp):
+            g = node.args[0]
+            if len(g.generators) != 1 or g.generators[0].ifs or g.generators[0].is_async or not isinstance(g.generators[0].target, ast.Name):
+                _bad(node, "only sum(e for x in l) is supported")
+            c = g.generators[0]
+            l, lt = self.expr(c.iter, env, pre)
+            if not (isinstance(lt, tuple) and lt[0] == "list"):
+                _bad(node, "sum over a non-list")
+            x = c.target.id
+            self.check_ident(x)
+            if x in env:
+                _bad(node, "generator variable shadows a defined name")
+            genv = dict(env)
+            genv[x] = lt[1]
+            gpre = []
+            e, et = self.expr(g.elt, genv, gpre)
+            if gpre or et != "int":
+                _bad(node, "the summed expression must be a plain int expression")
+            return "List.sum (List.map (fun %s => %s) %s)" % (x, e, _atom(l)), "int"
+        # collections.defaultdict(dict)
+        if isinstance(f, ast.Attribute) and isinstance(f.value, ast.Name) and f.value.id == "collections" and f.attr == "defaultdict" \
+                and len(node.args) == 1 and not node.keywords and isinstance(node.args[0], ast.Name) and node.args[0].id == "dict":
+            return "[]", "ddict2?"
         # s.encode("ascii") / b.decode("utf-8")
         if isinstance(f, ast.Attribute) and f.attr in ("encode", "decode") and len(node.args) == 1 and not node.keywords \
                 and isinstance(node.args[0], ast.Constant) and isinstance(node.args[0].value, str):
@@ -317,6 +457,21 @@ class WireTranslator:
                 pre.append("let %s ← %s %s" % (n, {"ascii": "decodeAscii", "utf-8": "decodeText"}[codec], _atom(arg)))
                 return n, "text"
             _bad(node, ".%s(%r) on %r is not supported" % (f.attr, codec, t))
+        # tuple(<list of ints>)
+        if isinstance(f, ast.Name) and f.id == "tuple" and f.id not in env and len(node.args) == 1 and not node.keywords:
+            a, at = self.expr(node.args[0], env, pre)
+            if at != "ints":
+                _bad(node, "tuple() of something that is not a list of ints")
+            return a, "ints"
+        # twisted.python.compat.nativeString on a str
+        if isinstance(f, ast.Name) and f.id == "nativeString" and f.id not in env and f.id not in self.specs \
+                and len(node.args) == 1 and not node.keywords:
+            a, at = self.expr(node.args[0], env, pre)
+            if at != "text":
+                _bad(node, "nativeString of something that is not a str")
+            n = self.fresh()
+            pre.append("let %s ← nativeStringR %s" % (n, _atom(a)))
+            return n, "text"
         # translated functions: name(...) or cls.name(...) / KafkaCodec.name(...)
         name = None
         if isinstance(f, ast.Name) and f.id not in env:
@@ -333,6 +488,14 @@ class WireTranslator:
         if name is not None and name in self.specs:
             sp = self.specs[name]
             args = self.bind_args(node, sp, env, pre)
+            if sp.generic is not None:
+                cur = self.current.generic
+                if cur is None or cur[0] != sp.generic[0] or not set(a for a, _ in sp.generic[1]) <= set(a for a, _ in cur[1]):
+                    _bad(node, "a generic function can only be called from a function generic in the same payload type")
+                args = ["acc_%s" % a for a, _ in sp.generic[1]] + args
+                n = self.fresh()
+                pre.append("let %s ← %s %s" % (n, sp.lean, " ".join(_atom(a) for a in args)))
+                return n, self.subst_abs(sp.ret)
             n = self.fresh()
             pre.append("let %s ← %s %s" % (n, sp.lean, " ".join(_atom(a) for a in args)))
             return n, sp.ret
@@ -440,9 +603,16 @@ class WireTranslator:
     def block(self, stmts, env, ret):
         """-> lines of a `do` block that ends the function (every path returns or raises)"""
         if not stmts:
+            if self.current.generator is not None:
+                return ["pure ()"]
             raise ValueError("wire_translate: a path falls off the end of the function (implicit `return None`)")
         s, rest = stmts[0], stmts[1:]
         pre = []
+        if self.current.generator is not None and isinstance(s, ast.Return):
+            _bad(s, "return inside a generator")
+        y = self.yield_stmt(s, env)
+        if y is not None:
+            return y + self.block(rest, env, ret)
         if isinstance(s, ast.Expr) and isinstance(s.value, ast.Constant) and isinstance(s.value.value, str):
             return self.block(rest, env, ret)
         if isinstance(s, ast.Return):
@@ -455,6 +625,34 @@ class WireTranslator:
             if rest:
                 _bad(rest[0], "unreachable statement after raise")
             return ["Except.error Err.%s" % self.exc_of(s)]
+        if isinstance(s, ast.Assert):
+            if s.msg is not None:
+                _bad(s, "assert with a message")
+            t = s.test
+            # assert isinstance(<int name>, int): the declared type is that precondition
+            if isinstance(t, ast.Call) and isinstance(t.func, ast.Name) and t.func.id == "isinstance" and len(t.args) == 2 \
+                    and isinstance(t.args[0], ast.Name) and env.get(t.args[0].id) == "int" and isinstance(t.args[1], ast.Name) and t.args[1].id == "int":
+                self.skipped.append("assert isinstance(%s, int) (line %d)" % (t.args[0].id, s.lineno))
+                return self.block(rest, env, ret)
+            raise_ = ast.Raise(exc=ast.Call(func=ast.Name(id="AssertionError", ctx=ast.Load()), args=[], keywords=[]), cause=None)
+            ast.copy_location(raise_, s)
+            neg = None
+            if isinstance(t, ast.Compare) and len(t.ops) == 1:
+                flip = {ast.Is: ast.IsNot, ast.IsNot: ast.Is, ast.Eq: ast.NotEq, ast.NotEq: ast.Eq, ast.Lt: ast.GtE, ast.GtE: ast.Lt,
+                        ast.Gt: ast.LtE, ast.LtE: ast.Gt}.get(type(t.ops[0]))
+                if flip is not None:
+                    neg = ast.Compare(left=t.left, ops=[flip()], comparators=t.comparators)
+                    ast.copy_location(neg, t)
+            if neg is None:
+                _bad(s, "assert condition not in the supported subset")
+            iff = ast.If(test=neg, body=[raise_], orelse=[])
+            ast.copy_location(iff, s)
+            ast.fix_missing_locations(iff)
+            return self.block([iff] + rest, env, ret)
+        if isinstance(s, ast.If) and not self.is_guard(s, env) and s.orelse and not self.terminates(s.body) and not self.terminates(s.orelse):
+            # a value-selecting if/else (does not end the function): handled by simple()
+            lines, wrap = self.simple(s, env)
+            return lines + self.block(rest, env, ret)
         if isinstance(s, ast.If):
             if self.is_guard(s, env):
                 self.skipped.append("isinstance guard (line %d)" % s.lineno)
@@ -576,9 +774,60 @@ class WireTranslator:
             if len(s.targets) != 1:
                 _bad(s, "chained assignment")
             tgt = s.targets[0]
+            if isinstance(tgt, ast.Subscript) and isinstance(tgt.value, ast.Name) and isinstance(env.get(tgt.value.id), tuple) \
+                    and env[tgt.value.id][0] == "dict" and tgt.value.id not in self.defaultdicts:
+                d = tgt.value.id
+                _, kt, vt = env[d]
+                v, t = self.expr(s.value, env, pre)
+                k, t1 = self.expr(tgt.slice, env, pre)
+                if t1 != kt or self.subst_abs(t) != self.subst_abs(vt):
+                    _bad(s, "key/value types %r do not match the declared dict type" % ((t1, t),))
+                return pre + ["let %s : %s := dictSet %s %s %s" % (d, lean_ty(env[d]), d, _atom(k), _atom(v))], None
+            if isinstance(tgt, ast.Subscript):
+                # out[k1][k2] = v on a defaultdict(dict)
+                inner = tgt.value
+                if not (isinstance(inner, ast.Subscript) and isinstance(inner.value, ast.Name) and isinstance(env.get(inner.value.id), tuple)
+                        and env[inner.value.id][0] == "dict" and isinstance(env[inner.value.id][2], tuple) and env[inner.value.id][2][0] == "dict"
+                        and inner.value.id in self.defaultdicts):
+                    _bad(s, "only out[k1][k2] = v on a defaultdict(dict) is supported as a subscript target")
+                d = inner.value.id
+                _, k1t, (_, k2t, vt) = env[d]
+                # Python evaluates the right-hand side first, then out[k1] (creating the default), then k2
+                v, t = self.expr(s.value, env, pre)
+                k1, t1 = self.expr(inner.slice, env, pre)
+                k2, t2 = self.expr(tgt.slice, env, pre)
+                if (t1, t2, t) != (k1t, k2t, vt):
+                    _bad(s, "key/value types %r do not match the declared dict type" % ((t1, t2, t),))
+                return pre + ["let %s : %s := ddSet2 %s %s %s %s" % (d, lean_ty(env[d]), d, _atom(k1), _atom(k2), _atom(v))], None
+            # p = [] if p is None else p   for a never-None list parameter p: the declared type is the precondition
+            if isinstance(tgt, ast.Name) and isinstance(s.value, ast.IfExp):
+                ie = s.value
+                tt = ie.test
+                if isinstance(env.get(tgt.id), tuple) and env[tgt.id][0] == "list" and isinstance(ie.body, ast.List) and not ie.body.elts \
+                        and isinstance(ie.orelse, ast.Name) and ie.orelse.id == tgt.id and isinstance(tt, ast.Compare) and len(tt.ops) == 1 \
+                        and isinstance(tt.ops[0], ast.Is) and isinstance(tt.left, ast.Name) and tt.left.id == tgt.id \
+                        and isinstance(tt.comparators[0], ast.Constant) and tt.comparators[0].value is None:
+                    self.skipped.append("None default of %s (line %d)" % (tgt.id, s.lineno))
+                    return [], None
+                _bad(s, "conditional expression not in the supported subset")
             v, t = self.expr(s.value, env, pre)
             if t == "none":
                 _bad(s, "assignment of None")
+            if t in ("ddict2?", "list?", "dict?"):
+                if not (isinstance(tgt, ast.Name) and tgt.id in self.local_types):
+                    _bad(s, "the type of an empty list / defaultdict(dict) local must be declared by the caller")
+                want = t
+                t = self.local_types[tgt.id]
+                if want == "ddict2?":
+                    if not (t[0] == "dict" and isinstance(t[2], tuple) and t[2][0] == "dict"):
+                        _bad(s, "declared type does not fit defaultdict(dict)")
+                    self.defaultdicts.add(tgt.id)
+                elif want == "dict?":
+                    if t[0] != "dict":
+                        _bad(s, "declared type does not fit {}")
+                elif t != "ints" and t[0] != "list":
+                    _bad(s, "declared type does not fit []")
+                v = "([] : %s)" % lean_ty(t)
             lines = list(pre)
             if isinstance(tgt, ast.Name):
                 wrap = self.bind_target(tgt, v, t, env, lines)
@@ -601,7 +850,91 @@ class WireTranslator:
             return pre + ["let %s : %s := %s" % (s.target.id, lean_ty(t), v)], None
         if isinstance(s, ast.For):
             return self.for_loop(s, env), None
+        if isinstance(s, ast.If):
+            # if c: x = a  else: x = b
+            if len(s.body) == 1 and len(s.orelse) == 1 and all(
+                    isinstance(b, ast.Assign) and len(b.targets) == 1 and isinstance(b.targets[0], ast.Name) for b in (s.body[0], s.orelse[0])) \
+                    and s.body[0].targets[0].id == s.orelse[0].targets[0].id:
+                x = s.body[0].targets[0].id
+                self.check_ident(x)
+                c = self.cond(s.test, env, pre)
+                p2 = []
+                a, at = self.expr(s.body[0].value, env, p2)
+                b, bt = self.expr(s.orelse[0].value, env, p2)
+                if pre or p2:
+                    _bad(s, "fallible call inside a value-selecting if/else")
+                if at != bt or at in ("none", "list?", "ddict2?"):
+                    _bad(s, "the two sides of a value-selecting if/else have different types")
+                if x in env and env[x] != at:
+                    _bad(s, "if/else changes the type of %s" % x)
+                env[x] = at
+                return ["let %s : %s := if %s then %s else %s" % (x, lean_ty(at), c, a, b)], None
+            _bad(s, "an `if` that does not end the function must be `if c: x = a else: x = b`")
         _bad(s, "statement not in the supported subset")
+
+    def yield_stmt(self, s, env):
+        """`yield e` -> lines, or None"""
+        if not (isinstance(s, ast.Expr) and isinstance(s.value, ast.Yield)):
+            return None
+        if self.current.generator is None or s.value.value is None:
+            _bad(s, "yield outside a declared generator / bare yield")
+        pre = []
+        v, t = self.expr(s.value.value, env, pre)
+        v = self.coerce(v, t, self.current.generator, s)
+        return pre + ["yieldY %s" % _atom(v)]
+
+    def append_stmt(self, s, env):
+        """`lst.append(e)` -> lines, or None if `s` is not that statement"""
+        if not (isinstance(s, ast.Expr) and isinstance(s.value, ast.Call)):
+            return None
+        c = s.value
+        f = c.func
+        if not (isinstance(f, ast.Attribute) and f.attr == "append" and isinstance(f.value, ast.Name) and len(c.args) == 1 and not c.keywords):
+            return None
+        lt = env.get(f.value.id)
+        if lt == "ints":
+            lt = ("list", "int")
+        if not (isinstance(lt, tuple) and lt[0] == "list"):
+            _bad(s, ".append on a name that is not a list here")
+        pre = []
+        v, t = self.expr(c.args[0], env, pre)
+        v = self.coerce(v, t, lt[1], s)
+        if env.get(f.value.id) == "ints":
+            return pre + ["let %s : List Int := %s ++ [%s]" % (f.value.id, f.value.id, v)]
+        return pre + ["let %s : %s := %s ++ [%s]" % (f.value.id, lean_ty(lt), f.value.id, v)]
+
+    def loop_block(self, stmts, env, t):
+        """the body of a loop: simple statements, then `pure <carried>`"""
+        if not stmts:
+            return ["pure %s" % t]
+        s, rest = stmts[0], stmts[1:]
+        lines = self.append_stmt(s, env)
+        if lines is None:
+            lines = self.yield_stmt(s, env)
+        wrap = None
+        if lines is None:
+            if not isinstance(s, (ast.Assign, ast.AugAssign, ast.For)):
+                _bad(s, "only assignments, .append() and nested for loops are supported in a loop body")
+            lines, wrap = self.simple(s, env)
+        tail = self.loop_block(rest, env, t)
+        if wrap is None:
+            return lines + tail
+        out = lines + [wrap[0]]
+        out += ["  " + l for l in tail]
+        out[-1] += ")"
+        out += [wrap[1]]
+        return out
+
+    @staticmethod
+    def appended(stmts):
+        out = []
+        for s in stmts:
+            for n in ast.walk(s):
+                if isinstance(n, ast.Expr) and isinstance(n.value, ast.Call) and isinstance(n.value.func, ast.Attribute) \
+                        and n.value.func.attr == "append" and isinstance(n.value.func.value, ast.Name):
+                    if n.value.func.value.id not in out:
+                        out.append(n.value.func.value.id)
+        return out
 
     @staticmethod
     def assigned(stmts):
@@ -617,7 +950,7 @@ class WireTranslator:
                     t = [n.target]
                 for x in t:
                     for y in ast.walk(x):
-                        if isinstance(y, ast.Name) and y.id not in out:
+                        if isinstance(y, ast.Name) and isinstance(y.ctx, ast.Store) and y.id not in out:
                             out.append(y.id)
         return out
 
@@ -625,40 +958,66 @@ class WireTranslator:
         if s.orelse:
             _bad(s, "for/else")
         pre = []
-        it, itt = self.expr(s.iter, env, pre)
-        if not (isinstance(itt, tuple) and itt[0] == "list"):
-            _bad(s, "only `for x in <list>` loops are supported")
-        elt = itt[1]
-        benv = dict(env)
-        if isinstance(s.target, ast.Name):
-            self.check_ident(s.target.id)
-            if s.target.id in env:
-                _bad(s, "loop variable shadows a defined name")
-            benv[s.target.id] = elt
-            pat = s.target.id
+        tgt = s.target
+        if isinstance(tgt, ast.Name):
+            names = [tgt.id]
+        elif isinstance(tgt, ast.Tuple) and all(isinstance(e, ast.Name) for e in tgt.elts):
+            names = [e.id for e in tgt.elts]
         else:
-            _bad(s, "tuple loop targets are not supported")
-        carried = [v for v in self.assigned(s.body) if v in env]
+            _bad(s, "loop target must be a name or a tuple of names")
+        for nm in names:
+            self.check_ident(nm)
+            if nm in env and not (env[nm] == "natidx" and nm not in self.loaded_names):
+                _bad(s, "loop variable shadows a defined name")
+        pat = names[0] if len(names) == 1 else "(" + ", ".join(names) + ")"
+        benv = dict(env)
+        itn = s.iter
+        if isinstance(itn, ast.Call) and isinstance(itn.func, ast.Name) and itn.func.id == "range" and "range" not in env:
+            if len(itn.args) != 1 or itn.keywords or len(names) != 1:
+                _bad(s, "only `for i in range(<one argument>)` is supported")
+            n, nt = self.expr(itn.args[0], env, pre)
+            if nt != "int":
+                _bad(s, "range() of a non-int")
+            it = "(List.range %s.toNat)" % _atom(n)
+            benv[names[0]] = "natidx"  # a Nat; not usable in int expressions (no loop in the subset reads it)
+        else:
+            it, itt = self.expr(itn, env, pre)
+            if isinstance(itt, tuple) and itt[0] == "dict":
+                it, itt = "List.map Prod.fst %s" % _atom(it), ("list", itt[1])  # iterating a dict yields its keys
+            if not (isinstance(itt, tuple) and itt[0] == "list"):
+                _bad(s, "only `for x in <list/dict>` and `for i in range(n)` loops are supported")
+            if len(names) == 1:
+                benv[names[0]] = itt[1]
+            else:
+                et = itt[1]
+                if not (isinstance(et, tuple) and et[0] == "tup" and len(et[1]) == len(names)):
+                    _bad(s, "tuple loop target over elements that are not tuples of that size")
+                for nm, ty in zip(names, et[1]):
+                    benv[nm] = ty
+        carried = [v for v in self.assigned(s.body) if v in env and env[v] != "natidx"]
+        for v in self.appended(s.body):
+            if v in env and v not in carried:
+                carried.append(v)
+        # `out[k1][k2] = v` assigns (to) the dict `out`
+        for st in s.body:
+            if isinstance(st, ast.Assign) and isinstance(st.targets[0], ast.Subscript):
+                b = st.targets[0]
+                while isinstance(b, ast.Subscript):
+                    b = b.value
+                if isinstance(b, ast.Name) and b.id in env and b.id not in carried:
+                    carried.append(b.id)
         if not carried:
             _bad(s, "loop assigns no variable defined before it")
-        for st in s.body:
-            if not isinstance(st, (ast.Assign, ast.AugAssign)):
-                _bad(st, "only assignments are supported in a loop body")
-        if pat in self.assigned(s.body):
+        if any(nm in self.assigned(s.body) and nm in self.loaded_names for nm in names):
             _bad(s, "loop variable assigned in the body")
-        body = []
-        for st in s.body:
-            lines, wrap = self.simple(st, benv)
-            if wrap is not None:
-                _bad(st, "tuple-of-ints pattern inside a loop body")
-            body += lines
+        t = carried[0] if len(carried) == 1 else "(" + ", ".join(carried) + ")"
+        body = self.loop_block(list(s.body), benv, t)
         for v in carried:
             if benv[v] != env[v]:
                 _bad(s, "loop changes the type of %s" % v)
-        t = carried[0] if len(carried) == 1 else "(" + ", ".join(carried) + ")"
         out = pre + ["let %s ← List.foldlM (fun %s %s => do" % (t, t, pat)]
         out += ["  " + l for l in body]
-        out += ["  pure %s) %s %s" % (t, t, _atom(it))]
+        out[-1] += ") %s %s" % (t, _atom(it))
         return out
 
     # ------------------------------------------------------------------ one function
@@ -688,9 +1047,34 @@ class WireTranslator:
         self.ntmp = 0
         nskip = len(self.skipped)
         env = dict(sp.params)
+        self.local_types = sp.local_types
+        self.defaultdicts = set()
+        self.current = sp
+        self.loaded_names = {n.id for n in ast.walk(f) if isinstance(n, ast.Name) and isinstance(n.ctx, ast.Load)}
         lines = self.block(list(f.body), env, sp.ret)
-        ty = " → ".join(_arrow(lean_ty(t)) for _, t in sp.params) + " → R (%s)" % lean_ty(sp.ret)
-        term = "fun %s => do\n" % " ".join(p for p, _ in sp.params) + "\n".join("  " + l for l in lines)
+        ty = " → ".join(_arrow(lean_ty(t)) for _, t in sp.params) + (" → R (%s)" % lean_ty(sp.ret) if sp.generator is None else "")
+        if sp.generator is not None:
+            import re
+
+            ty = " → ".join(_arrow(lean_ty(t)) for _, t in sp.params) + " → Y (%s) Unit" % lean_ty(sp.generator)
+            out = []
+            for l in lines:
+                m = re.match(r"^(\s*let .*? ← )(?!List\.foldlM)(.*)$", l)
+                if m:
+                    l = "%sliftR (%s)" % (m.group(1), m.group(2))
+                l = re.sub(r"Except\.error Err\.(\w+)", r"liftR (Except.error Err.\1)", l)
+                out.append(l)
+            lines = out
+        binders = " ".join(p for p, _ in sp.params)
+        if sp.generic is not None:
+            var, accs = sp.generic
+            for n in ast.walk(f):
+                ident = n.id if isinstance(n, ast.Name) else n.arg if isinstance(n, ast.arg) else None
+                if ident is not None and ident.startswith("acc_"):
+                    raise ValueError("wire_translate: identifier %r collides with generated names" % ident)
+            ty = "{%s : Type} → " % var + " → ".join("(%s → %s)" % (var, lean_ty(t)) for _, t in accs) + " → " + ty
+            binders = "{%s} " % var + " ".join("acc_" + a for a, _ in accs) + " " + binders
+        term = "fun %s => do\n" % binders + "\n".join("  " + l for l in lines)
         return ty, term, self.skipped[nskip:]
 
 
